@@ -4,27 +4,74 @@
 
 package webdoc
 
+// ---- WebDocumentBuilder (C02: append-only element list; C06: page URL propagation) ----
+// elemsKept: the element list only grows by appending (nothing removed, replaced or reordered).
+
 //@ func (*WebDocumentBuilder).flushBlock(group)
-//@   requires db != nil && db.document != nil && db.textBuilder != nil
+//@   requires wfBuilder(db)
+//@   ensures wfBuilder(db) && db.document == old(db.document) && db.textBuilder == old(db.textBuilder) && db.pageURL == old(db.pageURL) && db.actionStack == old(db.actionStack)
 //@   ensures [C06] #text-carries-page-url implies(len(db.document.Elements) > old(len(db.document.Elements)),
 //@              typeis(db.document.Elements[len(db.document.Elements)-1], *Text) &&
 //@              as(db.document.Elements[len(db.document.Elements)-1], *Text).PageURL == db.pageURL)
 //@   ensures [C02] #append-only len(db.document.Elements) >= old(len(db.document.Elements)) && len(db.document.Elements) <= old(len(db.document.Elements)) + 1 &&
 //@              forall(i, 0 <= i && i < old(len(db.document.Elements)), db.document.Elements[i] == old(db.document.Elements[i]))
+//@   ensures [C02] #pending-window-consumed db.textBuilder.firstNode == len(db.textBuilder.textNodes) && len(db.textBuilder.textNodes) == old(len(db.textBuilder.textNodes))
+//@   ensures forall(i, 0 <= i && i < len(db.textBuilder.textNodes), db.textBuilder.textNodes[i] == old(db.textBuilder.textNodes[i]))
 
 //@ func (*WebDocumentBuilder).addText(text)
-//@   requires db != nil && db.document != nil
+//@   requires db != nil && db.document != nil && db.textBuilder != nil && inheap(db.document.Elements) && inheap(db.actionStack) && inheap(db.textBuilder.textNodes) && disjoint(db.textBuilder.textNodes, db.document.Elements)
 //@   ensures [C02] #appends-one len(db.document.Elements) == old(len(db.document.Elements)) + 1 &&
 //@              forall(i, 0 <= i && i < old(len(db.document.Elements)), db.document.Elements[i] == old(db.document.Elements[i]))
 //@   ensures [C06] typeis(db.document.Elements[len(db.document.Elements)-1], *Text) && fresh(db.document.Elements[len(db.document.Elements)-1]) &&
 //@              as(db.document.Elements[len(db.document.Elements)-1], *Text).PageURL == text.PageURL
-//@   ensures db.pageURL == old(db.pageURL) && db.document == old(db.document)
+//@   ensures db.pageURL == old(db.pageURL) && db.document == old(db.document) && db.textBuilder == old(db.textBuilder) && db.actionStack == old(db.actionStack) && inheap(db.document.Elements)
+//@   ensures unchanged("webdoc.TextBuilder.*") && disjoint(db.textBuilder.textNodes, db.document.Elements)
+//@   ensures forall(i, 0 <= i && i < len(db.textBuilder.textNodes), db.textBuilder.textNodes[i] == old(db.textBuilder.textNodes[i]))
 
 //@ func (*WebDocumentBuilder).AddDataTable(table)
-//@   requires db != nil && db.document != nil && db.textBuilder != nil
+//@   requires wfBuilder(db)
+//@   ensures wfBuilder(db)
 //@   ensures [C06] #table-carries-page-url typeis(db.document.Elements[len(db.document.Elements)-1], *Table) &&
 //@              as(db.document.Elements[len(db.document.Elements)-1], *Table).PageURL == db.pageURL &&
 //@              as(db.document.Elements[len(db.document.Elements)-1], *Table).Element == table
+
+//@ func (*WebDocumentBuilder).SkipNode(e)
+//@   requires wfBuilder(db)
+//@   ensures wfBuilder(db) && db.flush
+
+//@ func (*WebDocumentBuilder).StartNode(e)
+//@   requires wfBuilder(db) && e != nil
+//@   ensures wfBuilder(db)
+//@   ensures [C03] #start-never-flushes len(db.document.Elements) == old(len(db.document.Elements)) && len(db.actionStack) == old(len(db.actionStack)) + 1
+
+//@ func (*WebDocumentBuilder).EndNode()
+//@   requires wfBuilder(db)
+//@   ensures wfBuilder(db)
+//@   ensures [C01] #pop-is-guarded len(db.actionStack) == old(len(db.actionStack)) - 1 || (old(len(db.actionStack)) == 0 && len(db.actionStack) == 0)
+
+//@ func (*WebDocumentBuilder).AddTextNode(textNode)
+//@   requires wfBuilder(db) && wfNode(textNode) && inTreeOf(db.textBuilder, textNode)
+//@   ensures wfBuilder(db)
+//@   ensures [C03] #flush-only-if-pending implies(!old(db.flush), len(db.document.Elements) == old(len(db.document.Elements)))
+
+//@ func (*WebDocumentBuilder).AddLineBreak(br)
+//@   requires wfBuilder(db) && wfNode(br) && inTreeOf(db.textBuilder, br)
+//@   ensures wfBuilder(db)
+//@   ensures [C03] #flush-only-if-pending implies(!old(db.flush), len(db.document.Elements) == old(len(db.document.Elements)))
+
+//@ func (*WebDocumentBuilder).AddTag(tag)
+//@   requires wfBuilder(db) && tag != nil
+//@   ensures wfBuilder(db)
+//@   ensures [C07] #tag-appended len(db.document.Elements) >= 1 && db.document.Elements[len(db.document.Elements)-1] == tag
+
+//@ func (*WebDocumentBuilder).AddEmbed(embed)
+//@   requires wfBuilder(db) && embed != nil
+//@   ensures wfBuilder(db)
+//@   ensures len(db.document.Elements) >= 1 && db.document.Elements[len(db.document.Elements)-1] == embed
+
+//@ func (*WebDocumentBuilder).Build()
+//@   requires wfBuilder(db)
+//@   ensures result == db.document && result != nil
 
 //@ func (*Text).GetTextNodes()
 //@   inline
@@ -32,3 +79,28 @@ package webdoc
 //@ func (*Text).GenerateOutput(textOnly)
 //@   requires [C01] wfText(t)
 //@   loop 0 invariant clonedRoot != nil && fresh(clonedRoot) && wfText(t)
+
+// ---- TextBuilder (C02: each text node goes to exactly one Text; C01: index safety) ----
+
+//@ func (*TextBuilder).AddTextNode(textNode, tagLevel)
+//@   requires wfTB(tb) && wfNode(textNode) && inTreeOf(tb, textNode)
+//@   ensures wfTB(tb) && tb.firstNode == old(tb.firstNode) && (samerow(tb.textNodes, old(tb.textNodes)) || freshslice(tb.textNodes))
+//@   ensures [C02] #appends-the-node-or-nothing (len(tb.textNodes) == old(len(tb.textNodes)) || (len(tb.textNodes) == old(len(tb.textNodes)) + 1 && tb.textNodes[len(tb.textNodes)-1] == textNode))
+//@   ensures [C02] #prefix-unchanged forall(i, 0 <= i && i < old(len(tb.textNodes)), tb.textNodes[i] == old(tb.textNodes[i]))
+
+//@ func (*TextBuilder).AddLineBreak(node)
+//@   requires wfTB(tb) && wfNode(node) && inTreeOf(tb, node)
+//@   ensures wfTB(tb) && tb.firstNode == old(tb.firstNode) && len(tb.textNodes) == old(len(tb.textNodes)) + 1 && tb.textNodes[len(tb.textNodes)-1] == node && (samerow(tb.textNodes, old(tb.textNodes)) || freshslice(tb.textNodes))
+//@   ensures [C02] #prefix-unchanged forall(i, 0 <= i && i < old(len(tb.textNodes)), tb.textNodes[i] == old(tb.textNodes[i]))
+
+//@ func (*TextBuilder).Reset()
+//@   requires wfTB(tb)
+//@   ensures wfTB(tb) && tb.firstNode == len(tb.textNodes) && len(tb.textNodes) == old(len(tb.textNodes))
+//@   ensures forall(i, 0 <= i && i < len(tb.textNodes), tb.textNodes[i] == old(tb.textNodes[i]))
+
+//@ func (*TextBuilder).Build(offsetBlock)
+//@   requires wfTB(tb)
+//@   ensures wfTB(tb) && len(tb.textNodes) == old(len(tb.textNodes))
+//@   ensures [C02] #window-consumed tb.firstNode == len(tb.textNodes)
+//@   ensures [C01,C02] #window result == nil || (fresh(result) && wfText(result) && result.Start == old(tb.firstNode) && result.End == len(tb.textNodes))
+//@   ensures forall(i, 0 <= i && i < len(tb.textNodes), tb.textNodes[i] == old(tb.textNodes[i]))
